@@ -618,13 +618,14 @@ VOUT_OPTS = [
     [('fps', True, 'fps')],
     [('params', {'crf': 23}, 'params={"crf": 23}')],
     [('params', {'crf': 23, 'g': 30}, 'params={"crf": 23, "g": 30}')],  # verbatim from the docstring
+    [('params', {'x264-params': {'keyint': 30, 'b': [1, 2]}, 'g': 30}, 'params={"x264-params": {"keyint": 30, "b": [1, 2]}, "g": 30}')],  # nested JSON with a member after the nested container
     [('fps', 25, 'fps=25')], [('segtime', 180, 'segtime=180')], [('segtime', 0.5, 'segtime=0.5')], [('bgr', True, 'bgr')],
 ]
 
 
 def spec_VideoOut(tier):
     quick = tier == 'quick'
-    lists = elem_lists(VOUT_URIS[:3] if quick else VOUT_URIS, VOUT_OPTS[:6] if quick else VOUT_OPTS, [None, '', 'c'],
+    lists = elem_lists(VOUT_URIS[:3] if quick else VOUT_URIS, VOUT_OPTS[:7] if quick else VOUT_OPTS, [None, '', 'c'],
                        2 if quick else 4, False,
                        small=[(VOUT_URIS[0], VOUT_OPTS[1], None), (VOUT_URIS[1], [], 'c'), (VOUT_URIS[2], VOUT_OPTS[2], 'c')])
     dims  = [
